@@ -370,7 +370,11 @@ def dangling_cases(ctx, program, dictionaries):
                     cands |= set(e2.candidates)
                 except RecursionError:
                     break
-            if not knf or knf[-1].key not in cands:
+            def acceptable(key):
+                # (supplying L.0 also creates L: an absent ancestor of a missing key is as truthful a report as the key)
+                return key in cands or (isinstance(key, str) and U.lookup(key, o) is U.ABSENT and any(isinstance(c, str) and c.startswith(key + ".") for c in cands))
+
+            if not knf or not acceptable(knf[-1].key):
                 ctx.violation("missing-key-misreported", f"failure names {knf[-1].key if knf else None!r}; the keys that are really absent: {sorted(cands)} in {short(o)}", W)
                 return
             ctx.nontrivial(spec_hash(["dangling", program, o]))
